@@ -19,7 +19,7 @@ FileFaults == {"missing", "isdir", "dangling", "empty", "truncated", "garbage", 
                "jsonstring", "jsonnumber", "typenum", "propsnum", "badyaml"}
 ElemFaults == {"unknowntype", "missingdef", "missingfile", "refhash", "refhashslash", "refdefsempty", "refother",
                "refdefsbare", "refdefinitionsbare", "refuppercase",
-               "emptyenum", "nonprimenum", "intenumstr", "multiaddl", "defaultemptykey"}
+               "emptyenum", "nonprimenum", "typednonprimenum", "intenumstr", "multiaddl", "defaultemptykey"}
 Positions  == {"property", "nested", "item", "definition", "allof", "anyof", "allofbranch", "anyofbranch", "reffile"}
 \* "#" is the document root (success is legitimate); a default object with the key "" is odd but not one of
 \* the ungeneratable elements the statement lists: success or a clean failure, never a crash
